@@ -45,17 +45,16 @@ static bool report_if_violated(World &w, const Hist &h, const std::string &cell)
 }
 
 // leaf / quiescence judgement on a throw-away world
-static void judge_leaf(const Cfg &cfg, const Hist &h, const std::string &cell)
+// leaf oracle, shared by BFS and DFS: parties that read through Deliver are judged by check_quiescent; parties that read through
+// DeliverFrom must not be stuck in a wait although the sender's broadcast exists in their channel and nothing is in flight
+static void judge_world(World *w, const Cfg &cfg)
 {
-	World *w = build(cfg, h);
-	g_quiescent++;
 	bool any_from = false;
 	for (int p = 0; p < cfg.n; p++) if (cfg.honest[p] && w->uses_deliverfrom(p)) any_from = true;
 	if (!any_from)
 		w->check_quiescent(false);
 	else
 	{
-		// parties stuck in a DeliverFrom wait although the sender's broadcast exists in their channel and nothing is in flight for them
 		for (int p = 0; p < cfg.n && w->viol_key.empty(); p++)
 		{
 			for (int rep = 0; rep < 3 && cfg.honest[p] && w->waits(p); rep++) w->apply(Ev{'F', p, w->prog[p][w->pc[p]].a, cfg.n});
@@ -70,6 +69,13 @@ static void judge_leaf(const Cfg &cfg, const Hist &h, const std::string &cell)
 				w->fail("rbc/validity/deliverfrom", "nothing left to hand over, party " + str(p) + " still waits in DeliverFrom(" + str(s) + ") for broadcast #" + str(got + 1) + " of channel " + c);
 		}
 	}
+}
+
+static void judge_leaf(const Cfg &cfg, const Hist &h, const std::string &cell)
+{
+	World *w = build(cfg, h);
+	g_quiescent++;
+	judge_world(w, cfg);
 	g_outcomes.insert(outcome_of(*w));
 	report_if_violated(*w, h, cell);
 	delete w;
@@ -213,9 +219,7 @@ static void run_exec(DfsCtx &C, const std::vector<int> &prefix, ExecTrace &T)
 	{
 		// leaf: everything handed over
 		g_quiescent++;
-		bool any_from = false;
-		for (int p = 0; p < C.cfg->n; p++) if (C.cfg->honest[p] && w->uses_deliverfrom(p)) any_from = true;
-		if (!any_from) w->check_quiescent(false);
+		judge_world(w, *C.cfg);
 		g_outcomes.insert(outcome_of(*w));
 		if (report_if_violated(*w, T.hist, C.cell)) T.violated = true;
 	}
@@ -321,16 +325,19 @@ static Cfg chan_cfg(int variant, bool fifo)
 			c.prog[0] = {Ev{'S', 1, 1, 0}, Ev{'B', 1101, 0, 0}, Ev{'U', 0, 0, 0}, Ev{'S', 2, 1, 0}, Ev{'B', 1201, 0, 0}, Ev{'U', 0, 0, 0}};
 			c.prog[1] = {Ev{'S', 1, 1, 0}, Ev{'U', 0, 0, 0}, Ev{'S', 2, 1, 0}, Ev{'U', 0, 0, 0}};
 			break;
-		case 5: // leave and recover the inner channel TWICE: the record saved by unsetID must be refreshed at every leave
-			c.prog[0] = {Ev{'S', 1, 1, 0}, Ev{'B', 1101, 0, 0}, Ev{'U', 0, 0, 0}, Ev{'R', 1, 1, 0}, Ev{'B', 1102, 0, 0}, Ev{'U', 0, 0, 0},
-			             Ev{'R', 1, 1, 0}, Ev{'B', 1103, 0, 0}, Ev{'U', 0, 0, 0}};
-			c.prog[1] = {Ev{'S', 1, 1, 0}, Ev{'U', 0, 0, 0}, Ev{'R', 1, 1, 0}, Ev{'U', 0, 0, 0}, Ev{'R', 1, 1, 0}, Ev{'U', 0, 0, 0}};
+		case 5: // leave and recover the inner channel TWICE, collecting the sender's value in every visit (DeliverFrom, as the
+			// DKG/VSS protocols do): the record saved by unsetID must be refreshed at every leave
+			c.prog[0] = {Ev{'S', 1, 1, 0}, Ev{'B', 1101, 0, 0}, Ev{'W', 0, 0, 0}, Ev{'U', 0, 0, 0},
+			             Ev{'R', 1, 1, 0}, Ev{'B', 1102, 0, 0}, Ev{'W', 0, 0, 0}, Ev{'U', 0, 0, 0},
+			             Ev{'R', 1, 1, 0}, Ev{'B', 1103, 0, 0}, Ev{'W', 0, 0, 0}, Ev{'U', 0, 0, 0}};
+			c.prog[1] = {Ev{'S', 1, 1, 0}, Ev{'W', 0, 0, 0}, Ev{'U', 0, 0, 0}, Ev{'R', 1, 1, 0}, Ev{'W', 0, 0, 0}, Ev{'U', 0, 0, 0},
+			             Ev{'R', 1, 1, 0}, Ev{'W', 0, 0, 0}, Ev{'U', 0, 0, 0}};
 			break;
-		case 6: // two recover cycles, the other party is the sender in the later visits, a base-channel broadcast in between
-			c.prog[0] = {Ev{'S', 1, 1, 0}, Ev{'B', 1101, 0, 0}, Ev{'U', 0, 0, 0}, Ev{'B', 1001, 0, 0}, Ev{'R', 1, 1, 0}, Ev{'U', 0, 0, 0},
-			             Ev{'R', 1, 1, 0}, Ev{'U', 0, 0, 0}};
-			c.prog[1] = {Ev{'S', 1, 1, 0}, Ev{'U', 0, 0, 0}, Ev{'R', 1, 1, 0}, Ev{'B', 2101, 0, 0}, Ev{'U', 0, 0, 0},
-			             Ev{'R', 1, 1, 0}, Ev{'B', 2102, 0, 0}, Ev{'U', 0, 0, 0}};
+		case 6: // two recover cycles; only party 1 leaves and comes back, the sender stays inside
+			c.prog[0] = {Ev{'S', 1, 1, 0}, Ev{'B', 1101, 0, 0}, Ev{'W', 0, 0, 0}, Ev{'B', 1102, 0, 0}, Ev{'W', 0, 0, 0},
+			             Ev{'B', 1103, 0, 0}, Ev{'W', 0, 0, 0}, Ev{'U', 0, 0, 0}};
+			c.prog[1] = {Ev{'S', 1, 1, 0}, Ev{'W', 0, 0, 0}, Ev{'U', 0, 0, 0}, Ev{'R', 1, 1, 0}, Ev{'W', 0, 0, 0}, Ev{'U', 0, 0, 0},
+			             Ev{'R', 1, 1, 0}, Ev{'W', 0, 0, 0}, Ev{'U', 0, 0, 0}};
 			break;
 	}
 	return c;
